@@ -238,14 +238,19 @@ def decision_table(I, out, fn, classify, names):
     import itertools
     import formula as F
     from interp import core, PhiV, StructV
+    from interp import flatten_phi
     v0 = core(out["value"])
-    if isinstance(v0, StructV) and v0.variant == "Ok" and isinstance(core(v0.fields.get("0")), PhiV):
-        alts = [(c, StructV(v0.adt, "Ok", {"0": x})) for c, x in core(v0.fields["0"]).alts]
-    elif isinstance(v0, PhiV):
-        alts = list(v0.alts)
-    else:
-        alts = [(True, v0)]
+    alts = []
     fails = [(c, v) for c, v, n, f in I.fails if f == fn or f in I.inlined]
+    for c, x in flatten_phi(v0):
+        x0 = core(x)
+        if isinstance(x0, StructV) and x0.variant == "Ok" and isinstance(core(x0.fields.get("0")), PhiV):
+            for c2, y in flatten_phi(x0.fields["0"]):
+                alts.append((F.And(c, c2), StructV(x0.adt, "Ok", {"0": y})))
+        elif isinstance(x0, StructV) and x0.variant == "Err":
+            fails.append((c, x0))      # an error returned as a value is an error all the same
+        else:
+            alts.append((c, x))
     amap = {}
     for c, _ in alts + fails:
         for a in F.atoms(c):
@@ -341,3 +346,49 @@ def known_owners(crate, fn):
         todo.extend(callers)
     _OWN_CACHE[key] = owners
     return owners
+
+
+def struct_variants(v, needle, acc=None):
+    """short names of the enum-variant constructions whose path contains `needle`, anywhere inside a value"""
+    from interp import core, StructV, PhiV, Via, Sel, TupleV, ArrayV, CallV, MutV, IterMapV
+    if acc is None:
+        acc = set()
+    if isinstance(v, StructV):
+        if v.variant and needle in v.variant:
+            acc.add(v.variant.split("::")[-1])
+        for x in v.fields.values():
+            struct_variants(x, needle, acc)
+    elif isinstance(v, PhiV):
+        for _, x in v.alts:
+            struct_variants(x, needle, acc)
+    elif isinstance(v, Via):
+        struct_variants(v.inner, needle, acc)
+    elif isinstance(v, Sel):
+        struct_variants(v.base, needle, acc)
+    elif isinstance(v, (TupleV, ArrayV)):
+        for x in v.items:
+            struct_variants(x, needle, acc)
+    elif isinstance(v, CallV):
+        for x in v.args:
+            struct_variants(x, needle, acc)
+    elif isinstance(v, MutV):
+        struct_variants(v.base, needle, acc)
+        for o in v.ops:
+            for x in o[2:]:
+                if hasattr(x, "r"):
+                    struct_variants(x, needle, acc)
+    elif isinstance(v, IterMapV):
+        struct_variants(v.result, needle, acc)
+    return acc
+
+
+def guard_variants(v, place):
+    """variant names tested of `place` in the guards of the case splits inside v"""
+    from interp import split_guards
+    import formula as F
+    out = []
+    for g in split_guards(v):
+        for a in F.atoms(g):
+            if a[0] == "variant" and a[1] == place and a[2] not in out:
+                out.append(a[2])
+    return out
